@@ -43,6 +43,7 @@ selftest = c01.selftest
 
 
 def check(case):
+    case = common.expanded(case)
     kw, triples = common.base_kwargs(case)
     cfg = case["cfg"]
     inst_prop = case["g"]["inst_prop"]
@@ -123,3 +124,14 @@ def check(case):
             elif e["card"] != eo["card"]:
                 return violation("%s %s: cardinality %s with the mode on, %s with it off\n--- on ---\n%s\n--- off ---\n%s" % (lab, key, e["card"], eo["card"], text, t2), labels, nt)
     return ok(labels, nt)
+
+
+def enumerate_cases(tier):
+    """scale family: ratios within 1/n of 100 % (a tolerance instead of an exact comparison shows only on large classes)"""
+    sizes = [(250, 1, 1), (10001, 1, 1)] if tier == "quick" else [(250, 1, 1), (1000, 2, 1), (10001, 1, 1), (20001, 1, 2), (10001, 10000, 1)]
+    for n, missing, double in sizes:
+        for opt in (True, False):
+            yield {"g": {"scale": [n, missing, double]}, "target": {"mode": "all"}, "thr": 0,
+                   "cfg": {"keep_less_specific": True, "all_instances_are_compliant_mode": True, "instances_report_mode": "mixed",
+                           "allow_opt_cardinality": opt, "disable_exact_cardinality": False,
+                           "discard_useless_constraints_with_positive_closure": True, "inverse_paths": not opt}}
